@@ -195,3 +195,14 @@ pub mod collections {
         pub use super::super::HashSet;
     }
 }
+
+impl<K: serde::Serialize + Eq + Hash, V: serde::Serialize> serde::Serialize for HashMap<K, V> {
+    fn serialize<S: serde::Serializer>(&self, s: S) -> Result<S::Ok, S::Error> {
+        self.0.serialize(s)
+    }
+}
+impl<'de, K: serde::Deserialize<'de> + Eq + Hash, V: serde::Deserialize<'de>> serde::Deserialize<'de> for HashMap<K, V> {
+    fn deserialize<D: serde::Deserializer<'de>>(d: D) -> Result<Self, D::Error> {
+        Ok(HashMap(std::collections::HashMap::<K, V, Fixed>::deserialize(d)?))
+    }
+}
